@@ -3,17 +3,19 @@
 
 Input layout (hostile.cpp, decodeBytes): byte 0 = front end (b%3: 0 fake Connection, 1 Telnetd, 2 TcpRpc) and tree
 ((b/3)%4); byte 1 = options (bit0 echo, bit1 quiet, bits2-3 close mode, bits4-5 loop passes per segment, bit6 keep feeding
-after endSession); then the client's byte stream; trailer = n big-endian 16-bit cut positions followed by the byte n."""
+after endSession, bit7 install a log channel); then the client's byte stream; trailer = n big-endian 16-bit cuts (low 12 bits position,
+top 4 bits an application action on a directory node performed at that cut) followed by the byte n."""
 import os, sys
 out = os.path.join(os.path.dirname(os.path.abspath(__file__)), "..", "..", "corpus", "C13", "hostile")
 os.makedirs(out, exist_ok=True)
 IAC, SB, SE, DO, WILL = b"\xff", b"\xfa", b"\xf0", b"\xfd", b"\xfb"
-def cfg(fe, tree, echo=1, quiet=0, close=0, passes=2, stale=0):
-    return bytes([fe + 3 * tree, echo | quiet << 1 | close << 2 | (passes - 1) << 4 | stale << 6])
-def seed(name, head, segs):
+def cfg(fe, tree, echo=1, quiet=0, close=0, passes=2, stale=0, log=0):
+    return bytes([fe + 3 * tree, echo | quiet << 1 | close << 2 | (passes - 1) << 4 | stale << 6 | log << 7])
+def seed(name, head, segs, actions=()):
+    """actions[i] (1..15, see Rig::apiAction) is what the application does to a directory node after segment i"""
     stream = b"".join(segs); cuts = []; pos = 0
-    for s in segs[:-1]:
-        pos += len(s); cuts.append(pos)
+    for i, s in enumerate(segs[:-1]):
+        pos += len(s); cuts.append(pos | (actions[i] << 12 if i < len(actions) else 0))
     cuts = cuts[:7]
     tr = b"".join(bytes([c >> 8, c & 255]) for c in cuts) + bytes([len(cuts)])
     open(os.path.join(out, name + ".bin"), "wb").write(head + stream + tr)
@@ -36,4 +38,13 @@ seed("naws-one-byte-fills-buffer", cfg(1, 0), [b"aaa", IAC + SB + b"\x1fx" + IAC
 seed("nego-fills-buffer", cfg(1, 0), [b"a", IAC + WILL, b"\x1f"])
 seed("bye-then-quit-rpc", cfg(2, 2, echo=0), [b"bye\r\nquit\r\n"])
 seed("bye-then-quit-telnet", cfg(1, 2), [b"bye\r\n", b"quit\r\n"])
+# printf conversions in command lines (with a log channel installed the terminal formats its log lines about them)
+seed("percent-fake-log", cfg(0, 1, log=1), [b"p 100%% %5c|\r\n", b"echo %s%s%s%s%s%s%s%s\r\n", b"a;%n%n%n%n;p %ld %*d\r\n", b"history\r\n!0\r\n"])
+seed("percent-telnet-log", cfg(1, 2, log=1), [b"v/sv '%s%n'\r\n", b"%s\r\ncd %x%x%x%x%s\r\n", b"help %n;ls %5c;tree %%\r\n"])
+seed("percent-rpc-log", cfg(2, 0, echo=0, log=1), [b"p %s%s%s%s%s%s%s%s;%n\r\n"])
+# the application takes the directory the session sits in (or an ancestor) away, then relative names are resolved
+seed("cwd-deleted-fake", cfg(0, 1, log=1), [b"cd d\r\n", b"q\r\nls x\r\ncd sub\r\nhelp q\r\ntree sub\r\n./q\r\nls\r\npwd\r\ncd ..\r\n"], actions=[1])
+seed("cwd-umounted-deleted-telnet", cfg(1, 2), [b"cd d/sub\r\n", b"r\r\nls\r\n", b"..\r\nq\r\ntree\r\n"], actions=[6, 3])
+seed("cwd-ancestor-deleted-chain", cfg(2, 3, echo=0), [b"cd c0/c1/c2/c3\r\n", b"c4\r\nls c4\r\ncd ../..\r\nls\r\n", b"pwd\r\ntree .\r\n"], actions=[4, 9])
+seed("cwd-deleted-by-command", cfg(0, 2), [b"cd d\r\n/rmd\r\nq\r\n", b"cd sub\r\nup/rmd\r\n../p\r\n"])
 print("wrote", len(os.listdir(out)), "seeds to", os.path.normpath(out))
